@@ -45,7 +45,7 @@ def main():
         rec["checks"] = {}
         for c in checks:
             t0 = time.time()
-            rc, o, e = sh(["/verif/run", c, tier], env=dict(os.environ, VERIF_REPO=wt))
+            rc, o, e = sh([os.environ.get("VERIF_RUN", "/verif/run"), c, tier], env=dict(os.environ, VERIF_REPO=wt))
             keys = [l.strip()[:260] for l in o.splitlines() if l.startswith("  key=")]
             verdict = {1: "DETECTED", 0: "MISSED"}.get(rc, "HARNESS-ERROR")
             rec["checks"][c] = {"tier": tier, "exit": rc, "verdict": verdict, "keys": keys[:6], "wall_s": round(time.time() - t0, 1)}
